@@ -111,6 +111,7 @@ class Policy(object):
         self.resume = True
         self.lazy_start = 0  # >0: up to that many times an offered task is started only after a further event (relaxes A2)
         self.lazy_after_rerun = False
+        self.requested_first = False  # every action is reported requested before running
         self.early_resume = False  # a resume request may come at any boundary after the pause request
         self.rerun_probe = False  # one rerun request at a symbolic boundary while the workflow is not completed
         self.intermediate = False  # in-flight actions may report canceling/pausing before their final status
@@ -323,6 +324,9 @@ class Env(object):
             return
         act = self._new_act(task, route, None, t)
         self.log.append("+" + act.label())
+        if self.policy.requested_first:
+            # A3: the action execution is reported as requested before it runs (what st2 does)
+            self._update(task, route, events.ActionExecutionEvent(S.REQUESTED), ["action", S.REQUESTED])
         self._update(task, route, events.ActionExecutionEvent(S.RUNNING), ["action", S.RUNNING])
         self.inflight.append(act)
         for m in self.monitors:
